@@ -12,7 +12,9 @@ Trace validation. Line: `a=<0|1> d=<content> <event> …`
   (`m`: its results differ from the old entries);
 * `Q1` — a poll signal was pending and was consumed; `Q0` — none was pending;
 * `W` — the harness waited several polling intervals: at least one polling
-  scan happened.
+  scan happened;
+* `B1` / `B0` — the root was replaced by a symbolic link (scans fail) / the
+  link was removed.
 
 Polling scans and the transition's disk mutation are invisible steps. The
 journal is accepted iff it is the visible trace of a run of the (repaired)
@@ -22,7 +24,7 @@ model.
 def tauSteps (s : St) : List St :=
   -- a polling scan can run at any time, also while a transition works with the
   -- lock released
-  [tick s] ++ (transApply s).toList
+  [if s.broken then tickFail s else tick s] ++ (transApply s).toList
 
 def insertNew (acc : List St) (s : St) : List St × Bool :=
   if acc.contains s then (acc, false) else (s :: acc, true)
@@ -51,7 +53,7 @@ def step (cur : List St) (tok : String) : Option (List St) :=
     let c ← natOf cs
     let full := f == '1'
     pure (closeSet (cur.filterMap fun s =>
-      if s.trans.isSome then none else
+      if s.trans.isSome || s.broken then none else
       let (s', sn) := scan s full
       if sn.content == c then some s' else none))
   | 'T' :: 'b' :: cs => do
@@ -59,12 +61,16 @@ def step (cur : List St) (tok : String) : Option (List St) :=
     pure (closeSet (cur.filterMap fun s => transBegin s c))
   | ['T', 'e', m] =>
     some (closeSet (cur.filterMap fun s =>
-      match transEnd s with
+      -- the journal records whether some result differed from its old entry at
+      -- any depth (computed by the harness, independently of the code)
+      match transEnd s [none] (if m == '1' then [some ⟨1, []⟩] else [none]) with
       | some (s', made) => if made == (m == '1') then some s' else none
       | none => none))
   | ['Q', '1'] => some (closeSet (cur.filterMap pollReturn))
   | ['Q', '0'] => some (closeSet (cur.filter fun s => !s.pending))
-  | ['W'] => some (closeSet (cur.map tick))
+  | ['W'] => some (closeSet (cur.map fun s => if s.broken then tickFail s else tick s))
+  | ['B', '1'] => some (closeSet (cur.map fun s => { s with broken := true }))
+  | ['B', '0'] => some (closeSet (cur.map fun s => { s with broken := false }))
   | _ => none
 
 def validate : List St → Nat → List String → String
